@@ -123,6 +123,16 @@ func genC03Cases(e *Env) []xferCase {
 			add(c)
 		}
 	}
+	// (b1) manifests above the 1 MiB stepping threshold of the control header
+	for k := 0; k < e.Pick(2, 6); k++ {
+		c := xferCase{Shape: "bigmanifest", Names: "plain", TSeed: r.U64()}
+		c.Cfg.Transport = []string{"mock", "quic"}[k%2]
+		c.Cfg.Streams, c.Cfg.Resume = 1+r.Intn(4), k%2 == 0
+		c.Cfg.ChunkSize = 4096
+		c.Cfg.NoRootDir, c.Cfg.ScanPaths = true, r.Bool()
+		c.Cfg.WatchdogMs = 30000
+		add(c)
+	}
 	// (b2) trees without files over the in-memory transport
 	for _, sh := range []string{"empty", "dirsonly"} {
 		for k := 0; k < e.Pick(6, 30); k++ {
@@ -330,6 +340,7 @@ func runC03(e *Env) {
 		what := fmt.Sprintf("fault-free transfer did not complete: send_err=%q recv_err=%q hung=%v diff=%v", errS(o.Res.SendErr), errS(o.Res.RecvErr), o.Res.Hung, o.Diff)
 		e.R.Violate(c03Key(c, o), what, c, map[string]any{"tree": o.Tree, "result": o.Res.Summary(), "goroutines": o.Res.HangDump, "output_state_when_stopped": o.StateAtStop})
 	})
+	runC03AfterAborts(e)
 	e.R.SetExtra("hangs", hangs)
 	e.R.SetExtra("hook_hits", verifhook.AllHits())
 	e.R.Require(e.R.Counter("completed") >= e.Pick(700, 1500), fmt.Sprintf("only %d transfers completed", e.R.Counter("completed")))
